@@ -14,7 +14,7 @@ INFO = {
                "through self (no assignment to, and no &mut borrow of, any field but `next`); no Get impl has an "
                "interior-mutable field; each record gets a Context freshly built from that record's parsed value; "
                "the Get impls that can reach the clock, the environment, the file system or other processes are "
-               "exactly now, env, exec and trigger. No stage but the limiter answers Break on its own (every process body evaluated with the successor answering Continue), and the tokenizer tables (dispatch, blanks, number grammar, escapes) accept every valid value wholly, so the reader is in phase for the value that follows. No parse error depends on the reader's own state; files are read in argument order.",
+               "exactly now, env, exec and trigger. No stage but the limiter answers Break on its own (every process body evaluated with the successor answering Continue), and the tokenizer tables (dispatch, blanks, number grammar, escapes) accept every valid value wholly, so the reader is in phase for the value that follows. No parse error depends on the reader's own state; files are read in argument order. Nothing is produced in the iteration order of a std HashMap / HashSet (randomised per map): such an iteration only fills another hash / ordered collection, counts or tests.",
     "not_decided": "The equation out(A.B) = out(A).out(B) itself (a statement about two runs).",
     "trusted": ["sa/tables/state.toml", "Rust: without interior mutability or statics a &self method cannot keep state"],
 }
